@@ -59,8 +59,15 @@ def make_history(rng, keys, T, extra_keys=()):
         shp = SHAPES[k]
         n = int(np.prod(shp)) if shp else 1
         sc = np.exp(rng.uniform(np.log(0.03), np.log(300.0), size=n))
+        off = rng.normal(size=n) * 3
+        # now and then a coordinate on a tiny scale (variance far below the regulariser, below float32 eps) or one that
+        # never moved in the epoch: its entry is the documented `variance + 1e-3`, i.e. about 1e-3
+        tiny = rng.random(n) < 0.12
+        sc = np.where(tiny, np.exp(rng.uniform(np.log(1e-5), np.log(3e-4), size=n)), sc)
+        sc = np.where(rng.random(n) < 0.04, 0.0, sc)
+        off = np.where(sc < 1e-3, 0.0, off)
         z = rng.normal(size=(T, n))
-        x = z * sc + rng.normal(size=n) * 3
+        x = z * sc + off
         hist[k] = x.reshape((T,) + shp).astype(np.float32)
         scales[k] = sc
     return hist
@@ -233,7 +240,7 @@ def case_engine(case, res):
         kkeys = list(kern.position_keys)
         imm = np.asarray(all_ks[kidx].inverse_mass_matrix)      # [C, T, ...]
         cmap = coord_map(kern, state0)
-        t0 = 1
+        t0 = 1      # kernel-state snapshots are stored for every transition (only positions are thinned)
         w = {"kernel": type(kern).__name__, "listing_order": kkeys, "diag": diag, "schedule": spec, "co_kernel": case["co_kernel"], "tail_appended": bool(case.get("append_tail")),
              "identifiers": [k_.identifier for k_ in kers], "flat_coordinates": [f"{k}[{j}]" for k, j in cmap]}
         for ei, (ty, d, _k) in enumerate(spec, start=1):
@@ -272,7 +279,8 @@ def gen_cases(tier, seed):
         n_slow = int(rng.integers(1, 4))
         spec = [[1, 4, 1]]
         for _ in range(n_slow):
-            spec.append([2, int(rng.integers(10, 25)), 1])
+            th = int(rng.choice([1, 1, 2, 3]))       # warm-up thinning: the history is the epoch's *recorded* draws
+            spec.append([2, int(rng.integers(10, 25)) * th, th])
         spec += [[1, 4, 1], [4, 4, 1]]
         cases.append({"kind": "engine", "idx": i, "seed": seed, "keys": keys, "diag": bool(i % 2), "kernel": "nuts" if i % 4 < 2 else "hmc",
                       "spec": spec, "co_kernel": bool(rng.random() < 0.7), "co_first": int(rng.integers(0, 2)),
